@@ -50,7 +50,7 @@ func read(r ReaderAt, off int64, n int) ([]byte, error) {
 }
 
 // ParseHeader reads and decodes the header at lba (no cross-checks besides the CRCs).
-func ParseHeader(r ReaderAt, lss int, lba uint64, maxArray int) (*Header, error) {
+func ParseHeader(r ReaderAt, lss int, lba uint64, maxArray int, strict bool) (*Header, error) {
 	b, err := read(r, int64(lba)*int64(lss), lss)
 	if err != nil {
 		return nil, err
@@ -82,7 +82,7 @@ func ParseHeader(r ReaderAt, lss int, lba uint64, maxArray int) (*Header, error)
 	h.Count = binary.LittleEndian.Uint32(b[80:84])
 	h.EntrySize = binary.LittleEndian.Uint32(b[84:88])
 	h.ArrayCRC = binary.LittleEndian.Uint32(b[88:92])
-	for i := 92; i < lss; i++ {
+	for i := 92; strict && i < lss; i++ {
 		if b[i] != 0 {
 			return nil, fmt.Errorf("header sector byte %d not zero", i)
 		}
@@ -131,7 +131,7 @@ func CheckDisk(r ReaderAt, lss int, diskBytes int64, wantPMBR bool) (*Header, []
 	var bad []string
 	add := func(f string, a ...any) { bad = append(bad, fmt.Sprintf(f, a...)) }
 	n := uint64(diskBytes / int64(lss))
-	p, err := ParseHeader(r, lss, 1, 1<<20)
+	p, err := ParseHeader(r, lss, 1, 1<<20, true)
 	if err != nil {
 		add("primary header: %v", err)
 		return p, bad
@@ -164,7 +164,7 @@ func CheckDisk(r ReaderAt, lss int, diskBytes int64, wantPMBR bool) (*Header, []
 	if p.FirstUsable > p.LastUsable+1 {
 		add("first usable %d > last usable %d", p.FirstUsable, p.LastUsable)
 	}
-	s, err := ParseHeader(r, lss, n-1, 1<<20)
+	s, err := ParseHeader(r, lss, n-1, 1<<20, true)
 	if err != nil {
 		add("backup header at last LBA %d: %v", n-1, err)
 		return p, bad
